@@ -26,6 +26,7 @@ import (
 const (
 	watchdog   = 20 * time.Second      // generous: fires only when something is stuck (inconclusive)
 	probeGrace = 25 * time.Millisecond // write grace towards a server that may have stopped reading after GOAWAY
+	heldGrace  = 300 * time.Millisecond
 )
 
 type Step struct {
@@ -141,6 +142,7 @@ type conn struct {
 	eof        bool
 	held       bool
 	followUp   bool
+	broken     bool // a write failed while reads were held
 
 	steps []Step
 	trace []string
@@ -249,6 +251,10 @@ func (c *conn) armWrite() {
 	c.wmu.Lock()
 	if c.goawaySeen {
 		c.hc.SetWriteDeadline(time.Now().Add(probeGrace))
+	} else if c.held {
+		// reads are held, so a GOAWAY cannot be seen: a write that blocks means the
+		// server stopped reading (terminal framing error); found out by a short deadline
+		c.hc.SetWriteDeadline(time.Now().Add(heldGrace))
 	} else {
 		c.hc.SetWriteDeadline(time.Now().Add(watchdog))
 	}
@@ -310,10 +316,25 @@ func (c *conn) exec(s Step) {
 		c.hc.Release()
 		c.held = false
 		c.logf("release reads")
+		if c.broken {
+			// a write blocked while reads were held: the server must have ended the connection
+			idx, ok := c.peer.WaitFor(c.cursor, watchdog, func(e h2peer.Event) bool {
+				return e.EOF || (e.Is(http2.FrameGoAway) && e.ErrCode != http2.ErrCodeNo)
+			})
+			if !ok {
+				c.inconclusive("watchdog", "a write blocked for %v while reads were held, but the server neither sent GOAWAY nor closed", heldGrace)
+				return
+			}
+			c.judge(idx)
+			return
+		}
 		c.fenceAndJudge()
 		return
 	case "release":
 		c.release(s.SID)
+		return
+	}
+	if c.broken {
 		return
 	}
 	frames := s.frames()
@@ -334,6 +355,10 @@ func (c *conn) exec(s Step) {
 		}
 		if err := c.write(f); err != nil {
 			c.logf("  write: %v", err)
+			if c.held {
+				c.broken = true // settled when reads are released
+				break
+			}
 			if !c.goawayOrEOFSoon() {
 				c.inconclusive("rig", "write of %s failed: %v", v.Desc, err)
 				return
